@@ -1,3 +1,3 @@
 (* Model/W4SHarness.v — all replay instantiations of the generated control-flow skeletons (one file per generated unit). *)
 From PV Require Export Model.W4SHarnessBase Model.W4SHarnessSolver Model.W4SHarnessHosvd Model.W4SHarnessCpAls Model.W4SHarnessTucker
-  Model.W4SHarnessMu Model.W4SHarnessSampler Model.W4SHarnessHosvdFull Model.W4SHarnessCpAlsPre.
+  Model.W4SHarnessMu Model.W4SHarnessSampler Model.W4SHarnessHosvdFull Model.W4SHarnessCpAlsPre Model.W4SHarnessGcpOpt.
